@@ -265,6 +265,11 @@ func verifyContract(prog *Program, prop string, fn *ssa.Function, c *FuncContrac
 		reps = append(reps, FuncReport{Name: e.fnName, File: relRepo(prog.fset.Position(fn.Pos()).Filename), Mode: e.mode,
 			SSAInstrs: countInstrs(fn), Obls: len(e.obls), Approx: e.approx, Notes: c.Notes})
 	}
+	for _, cs := range c.Cuts {
+		if !prog.anchorExists(fn, cs.Anchor, cs.Before) {
+			errs = append(errs, "unsupported: anchor not found in "+fn.Name()+": "+cs.Anchor)
+		}
+	}
 	if !onlyBody {
 		runOne("", func(e *Enc) { e.verifyFunc(fn, c) })
 	}
@@ -294,6 +299,12 @@ func verifyContract(prog *Program, prop string, fn *ssa.Function, c *FuncContrac
 		if !found {
 			errs = append(errs, fmt.Sprintf("unsupported: contract names loop %d but %s has %d loops", ord, fn.Name(), len(loops)))
 		}
+	}
+	for _, cs := range c.Cuts {
+		if cs.Hits == 0 && len(errs) == 0 {
+			errs = append(errs, "unsupported: cut at \""+cs.Anchor+"\" was never reached by any encoded region of "+fn.Name()+" (its assertions would be silently absent)")
+		}
+		cs.Hits = 0
 	}
 	return
 }
